@@ -35,7 +35,7 @@ use std::time::Duration;
 pub const META: PropertyMeta = PropertyMeta {
     id: "C16",
     level: "exploration",
-    rule: "account built by a proptest-generated content history (1..12 account-level ops of the C01 set: all secret kinds, updates, moves, deletes, archive, folder create/rename/flags/description/delete) plus 2..4 appended creates, on a forced backend (fs / sqlite) x generated cipher x KDF. Sub-checks sound/<backend>: the drained account_integrity report (concurrency 1 or 4) has zero Failure events. Sub-checks sound-replay/<backend>: the same soundness oracle after histories of up to 16 ops that also contain folder-level create / update / delete with caller-chosen ids (fresh, still live, deleted), compaction, sign-out / re-open, followed by 0..2 rewrites (compact folder / account, folder / account password change, cipher change). Sub-check sync-sound (engine B): after every sync of generated multi-device merge cases (the C02/C20 `sync` generator: auto-merge, rewind + replay, force merge) the report of the syncing device has zero Failure events. Sub-checks <backend>/<kind>: 1..3 mutations of one kind, applied one at a time and reverted: fs = one byte (xor with a generated non-zero mask) inside the value region of a vault row / the stored row commit / an event record's payload / an event record's stored commit, located with the repo's FormatStream<VaultRecord|EventLogRecord> readers, or removal of a folder's .vault / .events file; sqlite = the same byte change in folder_secrets.meta / .secret / .commit_hash or folder_events.event / .commit_hash through the account's own client, or DELETE of the folder row / of the folder's event rows. Row, folder and byte positions are drawn from the case (monotone mapping of u16 fractions). Oracle: the report after the mutation contains a Failure event naming the affected folder that the report before the mutation did not contain. Sub-checks files/<backend>: a 1..4 KiB external file secret is added; file_integrity over canonical_files reports no failure, then a failure naming the file after one blob byte is changed and after the blob is removed. Non-trivial = the account holds >= 3 secrets in >= 2 folders and (for row/record mutations) some mutation hits a row that is not the first of its folder, (for removals) the folder is not the first one. Distinct = distinct case.",
+    rule: "account built by a proptest-generated content history (1..12 account-level ops of the C01 set: all secret kinds, updates, moves, deletes, archive, folder create/rename/flags/description/delete) plus 2..4 appended creates, on a forced backend (fs / sqlite) x generated cipher x KDF. Sub-checks sound/<backend>: the drained account_integrity report (concurrency 1 or 4) has zero Failure events. Sub-checks sound-replay/<backend>: the same soundness oracle after histories of up to 16 ops that also contain folder-level create / update / delete with caller-chosen ids (fresh, still live, deleted), compaction, sign-out / re-open, followed by 0..2 rewrites (compact folder / account, folder / account password change, cipher change). Sub-check sync-sound (engine B): after every sync of generated multi-device merge cases (the C02/C20 `sync` generator: auto-merge, rewind + replay, force merge) the report of the syncing device has zero Failure events. Sub-checks <backend>/<kind>: 1..3 mutations of one kind, applied one at a time and reverted: fs = one byte (xor with a generated non-zero mask) inside the value region of a vault row / the stored row commit / an event record's payload / an event record's stored commit, located with the repo's FormatStream<VaultRecord|EventLogRecord> readers, or removal of a folder's .vault / .events file; sqlite = the same byte change in folder_secrets.meta / .secret / .commit_hash or folder_events.event / .commit_hash through the account's own client, or DELETE of the folder row / of the folder's event rows. Row, folder and byte positions are drawn from the case (monotone mapping of u16 fractions). Oracle: the report after the mutation contains a Failure event naming the affected folder that the report before the mutation did not contain. Sub-checks files/<backend>: a 1..4 KiB external file secret is added; file_integrity over canonical_files reports no failure, then a failure naming the file after one blob byte is changed and after the blob is removed. In half of the files/<backend> cases a second file is sized so that its stored (encrypted) blob is exactly a multiple of 4096 bytes - the buffer size of the chunked blob reader - and that blob is the one corrupted. Non-trivial = the account holds >= 3 secrets in >= 2 folders and (for row/record mutations) some mutation hits a row that is not the first of its folder, (for removals) the folder is not the first one. Distinct = distinct case.",
     assumptions: &[
         "the mutated regions are exactly those named by the property: row value (encoded meta||secret AEAD packs), row commit, event payload, event commit, blob bytes; length prefixes, ids, timestamps and last_commit fields are never touched",
         "on sqlite 'removing a folder's vault' is deleting its folders row (what the repo's own test does) and 'removing its log' is deleting its folder_events rows",
@@ -133,6 +133,11 @@ pub struct FileSpec {
     pub folder: u16,
     pub len: u16,
     pub seed: u8,
+    /// 0 = as generated; k > 0 = a second file is sized so that its STORED (encrypted) blob is
+    /// exactly a multiple of 4096 bytes (k-th next multiple): buffer-boundary lengths of the
+    /// chunked blob reader
+    #[serde(default)]
+    pub boundary: u8,
 }
 
 #[derive(Clone, Debug, Serialize, Deserialize, PartialEq, Eq, Hash)]
@@ -624,8 +629,33 @@ async fn run_file_case(c: &FileCase, info: &mut CaseInfo) -> CheckResult {
     info.class(format!("files/{be}"));
     let fi = pick(c.file.folder, w.model.folders.len());
     let bytes = file_bytes(&c.file);
-    let (_, file) = create_file_secret(&mut w, fi, &bytes).await?;
+    let (_, mut file) = create_file_secret(&mut w, fi, &bytes).await?;
     let target = w.target().await.with_account_id(&w.account_id);
+    if c.file.boundary > 0 {
+        let first = target.paths().into_file_path(&file);
+        let stored = std::fs::metadata(&first).map_err(hf("c16/blob-not-on-disc", "stat blob"))?.len() as usize;
+        let overhead = stored.saturating_sub(bytes.len());
+        let want = (stored / 4096 + c.file.boundary as usize) * 4096;
+        let n = want - overhead;
+        if n <= 60_000 {
+            let mut more = bytes.clone();
+            let mut k = 0u8;
+            while more.len() < n {
+                more.push(c.file.seed.wrapping_mul(31).wrapping_add(k));
+                k = k.wrapping_add(7);
+            }
+            more.truncate(n);
+            // distinct content => distinct blob name
+            if let Some(b) = more.first_mut() {
+                *b ^= 0x5a;
+            }
+            let (_, f2) = create_file_secret(&mut w, fi, &more).await?;
+            let p2 = target.paths().into_file_path(&f2);
+            let l2 = std::fs::metadata(&p2).map_err(hf("c16/blob-not-on-disc", "stat blob"))?.len();
+            info.class(if l2 % 4096 == 0 { "blob-length-multiple-of-4096" } else { "blob-length-boundary-missed" });
+            file = f2;
+        }
+    }
     let files = w.account.canonical_files().await.map_err(hf("harness/canonical-files", "canonical_files"))?;
     let conc = if c.wide { 4 } else { 1 };
     info.nontrivial = account_rule(&w);
@@ -726,9 +756,11 @@ fn sound_replay_strategy(db: bool, max_ops: usize) -> impl Strategy<Value = Case
 }
 
 fn file_case_strategy(db: bool) -> impl Strategy<Value = FileCase> {
-    (history_strategy(Mix::Content, 5), (any::<u16>(), any::<u16>(), any::<u8>()), mut_strategy(), any::<bool>()).prop_map(move |(mut history, (folder, len, seed), flip, wide)| {
+    (history_strategy(Mix::Content, 5), (any::<u16>(), any::<u16>(), any::<u8>(), prop_oneof![2 => Just(0u8), 1 => Just(1u8), 1 => Just(2u8)]), mut_strategy(), any::<bool>()).prop_map(move |(mut history, (folder, len, seed, boundary), flip, wide)| {
         history.cfg.db = db;
-        FileCase { history, file: FileSpec { folder, len, seed }, flip, wide }
+        // boundary files are built on top of a small first file
+        let len = if boundary > 0 { len % 3000 } else { len };
+        FileCase { history, file: FileSpec { folder, len, seed, boundary }, flip, wide }
     })
 }
 
@@ -757,7 +789,7 @@ fn run(shard: &Shard, rep: &mut Report) {
                 eprintln!("shard {} {be}/{} done at {:.1}s", shard.index, k.name(), t0.elapsed().as_secs_f64());
             }
         }
-        drive(shard, rep, &format!("files/{be}"), shard.share(t.pick(8, 100)), file_case_strategy(db), with_shrink_budget(shard, 8, |c| check_file_case(c)));
+        drive(shard, rep, &format!("files/{be}"), shard.share(t.pick(16, 160)), file_case_strategy(db), with_shrink_budget(shard, 8, |c| check_file_case(c)));
     }
     crate::prop_merge::run_sync_subcheck(shard, rep, crate::prop_merge::Mode::Integrity);
 }
